@@ -183,6 +183,11 @@ func (s *seekableDecryptingReader) loadSegment(j int64) error {
 	}
 	segment := s.segBuf[:ctLen]
 	if _, err := io.ReadFull(s.r, segment); err != nil {
+		if err == io.EOF {
+			// The segment lies inside the ciphertext, so a stream that ends here is truncated.
+			// A bare io.EOF would be passed on by Read as a clean end of the plaintext.
+			err = io.ErrUnexpectedEOF
+		}
 		return err
 	}
 
@@ -208,6 +213,13 @@ func (s *seekableDecryptingReader) loadSegment(j int64) error {
 
 func (s *seekableDecryptingReader) Read(p []byte) (int, error) {
 	if s.pos >= s.plaintextLen {
+		// Only the final segment is sealed with the last-segment flag, so the end of the
+		// plaintext is authentic only once that segment has been decrypted.
+		if s.segIndex != s.numSegments-1 {
+			if err := s.loadSegment(s.numSegments - 1); err != nil {
+				return 0, err
+			}
+		}
 		return 0, io.EOF
 	}
 	j := s.segmentForPlaintextOffset(s.pos)
